@@ -25,6 +25,8 @@ func init() {
 			{PkgPath: diskPkg, Func: "verifC09MemTwo", Opt: big, Tiers: "thorough"},
 			{PkgPath: diskPkg, Func: "verifC09MemHistory", Opt: big},
 			{PkgPath: diskPkg, Func: "verifC09FileHistory", Opt: big},
+			{PkgPath: diskPkg, Func: "verifC09MemGlobalHistory", Opt: big},
+			{PkgPath: diskPkg, Func: "verifC09FileGlobalHistory", Opt: big},
 			{PkgPath: asyncPkg, Func: "verifC09AsyncMemFresh", Opt: big},
 			{PkgPath: asyncPkg, Func: "verifC09AsyncMemStep", Opt: big},
 			{PkgPath: diskPkg, Func: "verifC09FileFresh", Opt: big},
@@ -33,7 +35,7 @@ func init() {
 			{PkgPath: diskPkg, Func: "verifC09FileTwo", Opt: big, Tiers: "thorough"},
 			{PkgPath: asyncPkg, Func: "verifC09AsyncFileStep", Opt: big},
 		},
-		Covers: []string{"c09/history", "c09/fresh", "c09/read", "c09/readto", "c09/write", "c09/size", "c09/barrier"},
+		Covers: []string{"c09/history", "c09/global-history", "c09/fresh", "c09/read", "c09/readto", "c09/write", "c09/size", "c09/barrier"},
 		Bounds: "n ≤ 3 blocks (forked); every block content (4096 symbolic bytes each), every 64-bit address, write-buffer length from {0,1,4095,4096,4097,8192}; one inductive step from an arbitrary reachable state (+ depth-2 histories in thorough); histories of arbitrary Read/ReadTo/Write/Barrier operations at arbitrary addresses from the zero state: 3 operations on a 5-block (8-block in thorough) memory disk; 2 (3) operations on a 5-block (8-block) file disk with a memory disk run side by side",
 		Assumptions: []string{
 			"every reachable disk state is reachable by one Write per block (so one step from that state covers histories of any length)",
